@@ -78,6 +78,9 @@ type HarnessResult struct {
 	SolverTime   time.Duration
 	SolverMax    time.Duration
 	Wall         time.Duration
+	CrossChecked   int
+	CrossDisagree  []string
+	CrossSolver    string
 }
 
 type Explorer struct {
@@ -98,6 +101,7 @@ type Explorer struct {
 	Trace        bool
 	Tier         string
 	MaxSeconds   int
+	CrossCheckMax int // number of discharged (unsat) verdict queries re-checked with a second solver
 	Progress     bool
 
 	mu       sync.Mutex
@@ -106,6 +110,8 @@ type Explorer struct {
 	active   int
 	stopped  bool
 	pathCount int
+	xqueries  []string // SMT-LIB scripts of discharged verdict queries (expected unsat)
+	xseen     int
 	res      *HarnessResult
 }
 
@@ -269,6 +275,9 @@ func (ex *Explorer) Run() *HarnessResult {
 		for f, n := range w.intr {
 			r.Intrinsics[f] += n
 		}
+	}
+	if len(ex.xqueries) > 0 {
+		ex.crossCheck(r)
 	}
 	r.Wall = time.Since(t0)
 	return r
@@ -444,6 +453,45 @@ func (c *pathCtx) finish(end, detail string) {
 	}
 }
 
+// recordDischarged keeps the SMT-LIB text of an "unsat" verdict query for the second-solver pass
+// (reservoir of CrossCheckMax queries).
+func (c *pathCtx) recordDischarged(neg *Term) {
+	ex := c.ex
+	if ex.CrossCheckMax <= 0 {
+		return
+	}
+	ex.mu.Lock()
+	ex.xseen++
+	n := ex.xseen
+	slot := -1
+	if len(ex.xqueries) < ex.CrossCheckMax {
+		slot = len(ex.xqueries)
+		ex.xqueries = append(ex.xqueries, "")
+	} else if k := int(pathHash(c.decisions, int64(n)) % uint64(n)); k < ex.CrossCheckMax {
+		slot = k
+	}
+	ex.mu.Unlock()
+	if slot < 0 {
+		return
+	}
+	var sb strings.Builder
+	sb.WriteString("(push 1)\n")
+	for _, d := range c.syms {
+		if d.Sort == SBool {
+			sb.WriteString("(declare-const " + quoteSym(d.Name) + " Bool)\n")
+		} else {
+			sb.WriteString("(declare-const " + quoteSym(d.Name) + " Int)\n")
+		}
+	}
+	for _, t := range c.pc {
+		sb.WriteString("(assert " + t.SMT() + ")\n")
+	}
+	sb.WriteString("(assert " + neg.SMT() + ")\n(check-sat)\n(pop 1)\n")
+	ex.mu.Lock()
+	ex.xqueries[slot] = sb.String()
+	ex.mu.Unlock()
+}
+
 func (c *pathCtx) mkCex(assertion, kind string, m map[string]interface{}) *Cex {
 	cex := &Cex{
 		Property:  c.ex.Property,
@@ -502,7 +550,11 @@ func (c *pathCtx) reportFailure(id string, failCond *Term, kind, detail string) 
 		}
 	}
 	outside := mkAnd(failCond, mkNot(mkOr(regs...)))
-	if m := c.modelWith(outside); m != nil {
+	m := c.modelWith(outside)
+	if m == nil {
+		c.recordDischarged(outside)
+	}
+	if m != nil {
 		cex := c.mkCex(id, kind, m)
 		cex.Detail = detail
 		ex.mu.Lock()
@@ -539,5 +591,49 @@ func (c *pathCtx) reportFailure(id string, failCond *Term, kind, detail string) 
 			ex.res.KnownCount[regIdx[k]]++
 			ex.mu.Unlock()
 		}
+	}
+}
+
+// crossCheck re-runs the recorded discharged queries with a second solver; every answer must be unsat.
+func (ex *Explorer) crossCheck(r *HarnessResult) {
+	kind := "cvc5"
+	if ex.SolverKind == "cvc5" {
+		kind = "z3"
+	}
+	r.CrossSolver = kind
+	s, err := NewSolver(kind, ex.TimeoutMs)
+	if err != nil {
+		r.CrossDisagree = append(r.CrossDisagree, "cannot start "+kind+": "+err.Error())
+		return
+	}
+	defer s.Close()
+	for _, q := range ex.xqueries {
+		if q == "" {
+			continue
+		}
+		// strip the trailing check-sat/pop: use the pipe API for the answer
+		body := strings.TrimSuffix(q, "(check-sat)\n(pop 1)\n")
+		func() {
+			defer func() {
+				if rec := recover(); rec != nil {
+					r.CrossDisagree = append(r.CrossDisagree, fmt.Sprint(rec))
+				}
+			}()
+			s.send(strings.TrimSuffix(body, "\n"))
+			s.depth++
+			ans := s.Check()
+			s.Pop()
+			r.CrossChecked++
+			if ans != "unsat" {
+				msg := kind + " answered " + ans + " on a query z3 discharged"
+				if len(s.Errors) > 0 {
+					msg += ": " + s.Errors[0]
+					s.Errors = nil
+				}
+				if len(r.CrossDisagree) < 5 {
+					r.CrossDisagree = append(r.CrossDisagree, msg+"\n"+q)
+				}
+			}
+		}()
 	}
 }
